@@ -237,13 +237,15 @@ def run_case(case, rng):
                 tol = lambda x, y: abs(x - y) <= 1e-12 * max(1.0, abs(y))
                 via1 = [c for c in cand1 if tol(l1, c) and tol(l2, r2[a])]
                 via2 = [c for c in cand2 if tol(l2, c) and tol(l1, r1[a])]
-                if via1:
-                    r1[a] = l1
-                elif via2:
-                    r2[a] = l2
+                if via1 or via2:
+                    # (both shadow entries take the live values they were just verified against: when the two tables hold the same
+                    # number the update cannot be attributed to one of them, and a shadow that is one ulp off changes later arg-max ties)
+                    r1[a], r2[a] = l1, l2
                 else:
                     case.fail("online:double-q-update-matches-neither-table-rule",
-                              f"step {state['steps']}: q1={l1!r} q2={l2!r} shadow=({r1[a]!r},{r2[a]!r}) cand1={cand1!r} cand2={cand2!r}", **facts)
+                              f"step {state['steps']}: q1={l1!r} q2={l2!r} shadow=({r1[a]!r},{r2[a]!r}) cand1={cand1!r} cand2={cand2!r} "
+                              f"s={s!r} a={a!r} r={r!r} ns={ns!r} shadow rows at ns: {n1!r} / {n2!r}; live rows at ns: "
+                              f"{dict(dict.__getitem__(q1, ns))!r} / {dict(dict.__getitem__(q2, ns))!r}", **facts)
                     return
                 if not long_walk or state["steps"] % 499 == 0:        # (the whole live table at every step; every 499th on the long walk)
                     compare_tables(q1, sh1, "q1")
